@@ -6,6 +6,7 @@ import (
 	"encoding/json"
 	"fmt"
 	"io"
+	"io/fs"
 	"os"
 	"path/filepath"
 	"sort"
@@ -176,6 +177,9 @@ func (p *storeProp) Gen(r *Rand, tier string, idx int) any {
 		readers = append(readers, "tags")
 		if p.id == "C09" || p.id == "C07" || p.id == "C08" {
 			mutators = append(mutators, "delete", "gc")
+			if p.id != "C06" && r.Chance(0.5) {
+				mutators = append(mutators, "gccancel")
+			}
 		}
 		if p.id == "C08" && !sp.AutoSave {
 			mutators = append(mutators, "saveindex")
@@ -208,7 +212,13 @@ func (p *storeProp) Gen(r *Rand, tier string, idx int) any {
 		}
 		addOp(op)
 	}
+	if sp.Kind == "oci" && sp.Tasks == 1 && (p.id == "C07" || p.id == "C09") && r.Chance(0.3) {
+		sp.Ops = append(sp.Ops, SOp{Op: "gccancel"})
+	}
 	if sp.Kind == "oci" && sp.Tasks == 1 && (p.id == "C08" || p.id == "C07") {
+		if r.Chance(0.4) {
+			sp.Ops = append(sp.Ops, SOp{Op: "reopen", How: fmt.Sprintf("fscancel%d", r.Range(1, 9))})
+		}
 		for _, how := range []string{"fs", "tar", "external", "new"} {
 			sp.Ops = append(sp.Ops, SOp{Op: "reopen", How: how})
 		}
@@ -475,6 +485,17 @@ func (sr *storeRun) sequential() *Verdict {
 			if op.Op == "gc" {
 				sr.gcRan = true
 			}
+			if op.Op == "gccancel" {
+				// a GC that is cut short may have done part of its work; the statement does not say
+				// how far it may get. Where there is nothing to collect, any part of nothing is
+				// nothing: only then is a cancelled GC issued, and it must change nothing.
+				full := sr.model.Clone()
+				full.gc()
+				if full.Key() != sr.model.Key() || sr.blobListingDiff() != "" {
+					continue
+				}
+				sr.info.Probes["gc_under_cancelled_context"]++
+			}
 			want := sr.model.Clone()
 			exp := want.Apply(op)
 			eioBefore := 0
@@ -590,7 +611,7 @@ func (sr *storeRun) supported(op SOp) bool {
 		return true
 	}
 	switch op.Op {
-	case "untag", "delete", "tags", "gc", "saveindex":
+	case "untag", "delete", "tags", "gc", "gccancel", "saveindex":
 		return false
 	}
 	return true
@@ -797,6 +818,22 @@ func tarDir(dir, out string) error {
 	return tw.Close()
 }
 
+// cancelFS cancels a context when its at-th file is opened.
+type cancelFS struct {
+	fs.FS
+	at     int
+	n      int
+	cancel context.CancelFunc
+}
+
+func (c *cancelFS) Open(name string) (fs.File, error) {
+	c.n++
+	if c.n == c.at {
+		c.cancel()
+	}
+	return c.FS.Open(name)
+}
+
 // checkLayout verifies the on-disk layout.
 func checkLayout(dir string) string {
 	b, err := os.ReadFile(filepath.Join(dir, "oci-layout"))
@@ -977,6 +1014,11 @@ func (sr *storeRun) reopen(how string) *Verdict {
 		})
 		return v
 	}
+	cancelAt := 0
+	if strings.HasPrefix(how, "fscancel") {
+		cancelAt, _ = strconv.Atoi(strings.TrimPrefix(how, "fscancel"))
+		how = "fscancel"
+	}
 	cur := sr.store.(*oci.Store)
 	if !sr.sp.AutoSave {
 		if err := cur.SaveIndex(); err != nil {
@@ -1001,6 +1043,18 @@ func (sr *storeRun) reopen(how string) *Verdict {
 			}
 		case "fs":
 			re, err = oci.NewFromFS(context.Background(), os.DirFS(sr.dir))
+		case "fscancel":
+			// the context is cancelled when the k-th file of the layout is opened: the load
+			// must fail, or the store must be complete all the same
+			cctx, cancel := context.WithCancel(context.Background())
+			re, err = oci.NewFromFS(cctx, &cancelFS{FS: os.DirFS(sr.dir), at: cancelAt, cancel: cancel})
+			cancel()
+			if err != nil {
+				sr.info.Probes["reopen_cancelled_midway_failed"]++
+				err = nil
+				return
+			}
+			sr.info.Probes["reopen_cancelled_midway_succeeded"]++
 		case "tar":
 			tp := filepath.Join(sr.rc.DiskDir, "layout.tar")
 			if err = tarDir(sr.dir, tp); err == nil {
@@ -1082,7 +1136,7 @@ func (sr *storeRun) concurrent() *Verdict {
 			simrt.Go(func() {
 				defer func() { done <- struct{}{} }()
 				for oi, op := range sp.Ops {
-					if op.Task != t || op.Op == "reopen" || !sr.supported(op) || op.Op == "gc" {
+					if op.Task != t || op.Op == "reopen" || !sr.supported(op) || op.Op == "gc" || op.Op == "gccancel" {
 						continue
 					}
 					if op.Op == "retag" {
